@@ -316,6 +316,42 @@ def scenario_scan_after_fit(run):
                         payload={"kind": "rerun"}, theorem="C03_valid")
 
 
+def scenario_nested_option_edit(run):
+    """the caller's own options object (a dictionary of per-step
+    dictionaries) passed, a step option changed in place at the nested
+    level, the same object passed again: the curve shows the results of the
+    stored settings, as a fresh curve does"""
+    steps = ["compute_tip_position", "correct_force_offset",
+             "correct_tip_offset"]
+    for via in ("apply_preprocessing", "fit_model", "both"):
+        for newm in ("fit_constant_polynomial", "gradient_zero_crossing"):
+            cols = m1.small_curve(9, n_app=120, n_ret=50)
+            idnt = curves.make_indentation(cols)
+            opts = {"correct_tip_offset": {"method": "deviation_from_baseline"}}
+            run.case({"scenario": "nested-option-edit", "via": via,
+                      "method": newm}, kind="scenario")
+            try:
+                idnt.apply_preprocessing(list(steps), opts)
+                idnt.fit_model(model_key="hertz_para")
+                opts["correct_tip_offset"]["method"] = newm
+                if via in ("apply_preprocessing", "both"):
+                    idnt.apply_preprocessing(list(steps), opts)
+                if via in ("fit_model", "both"):
+                    idnt.fit_model(preprocessing=list(steps),
+                                   preprocessing_options=opts)
+                else:
+                    idnt.fit_model()
+                why = compare_with_fresh(idnt, cols)
+            except BaseException as e:
+                why = f"raised {type(e).__name__}: {e}"
+            if why:
+                run.failing(SITE_EDIT, f"nested-option-edit:{via}:{newm}",
+                            f"options object edited in place at the nested "
+                            f"level ({newm}) and passed again through {via}: "
+                            f"{why}", payload={"kind": "rerun"},
+                            theorem="C03_valid")
+
+
 def scenario_gcf(run):
     """regression for the repaired in-place rescaling of the contact point"""
     ok = True
@@ -441,6 +477,7 @@ def check(run):
     setitem_sweep(run)
     near_equal_corpus(run)
     scenario_direct_edit(run)
+    scenario_nested_option_edit(run)
     scenario_unsuccessful_refit(run)
     scenario_scan_after_fit(run)
     ok, detail = scenario_gcf(run)
